@@ -44,7 +44,7 @@ RULE = ("regression programs; systematic boundary sweeps (every index pair for L
 def run(ctx):
     os.environ["VERIF_WATCHDOG_MS"] = WATCHDOG_MS
     return memlib.run_family(
-        ctx, PID, make_cases, rule=RULE,
+        ctx, PID, make_cases, wire_every=2, rule=RULE,
         extra_tb=[
             "pointer linkage of memdb.List (Head/Tail/Prev/Next) is not modelled: checked at run time by hook H1 "
             "(forward walk = reverse of backward walk, both = Len) in every dump, i.e. after every step",
